@@ -1,4 +1,3 @@
-<<<<<<< HEAD
 #pragma once
 #include <stdint.h>
 #include <osmocom/core/utils.h>
@@ -31,38 +30,3 @@ enum gsm_phys_chan_config {
 	_GSM_PCHAN_MAX
 };
 #define GSM_PCHAN_TCH_F_TCH_H_PDCH GSM_PCHAN_OSMO_DYN
-=======
-/* shim: the subset of <osmocom/gsm/gsm_utils.h> trx_if.c needs, with the declarations of
- * current libosmocore (the in-tree copy predates gsm_freq102arfcn and the *_CBCH channel
- * configurations).  gsm_arfcn2freq10() is linked from the in-tree
- * src/shared/libosmocore/src/gsm/gsm_utils.c; gsm_freq102arfcn() is provided by
- * harness/c/trxcon/shim_impl.c (transcribed from libosmocore). */
-#pragma once
-#include <stdint.h>
-
-#define GSM_MAX_FN	(26*51*2048)
-
-#define	ARFCN_PCS	0x8000
-#define	ARFCN_UPLINK	0x4000
-#define	ARFCN_FLAG_MASK	0xf000	/* Reserve the upper 5 bits for flags */
-
-uint16_t gsm_arfcn2freq10(uint16_t arfcn, int uplink);
-uint16_t gsm_freq102arfcn(uint16_t freq10, int uplink);
-
-/* Osmocom internal, not part of any gsm spec (order as in libosmocore) */
-enum gsm_phys_chan_config {
-	GSM_PCHAN_NONE,
-	GSM_PCHAN_CCCH,
-	GSM_PCHAN_CCCH_SDCCH4,
-	GSM_PCHAN_TCH_F,
-	GSM_PCHAN_TCH_H,
-	GSM_PCHAN_SDCCH8_SACCH8C,
-	GSM_PCHAN_PDCH,		/* GPRS PDCH */
-	GSM_PCHAN_TCH_F_PDCH,	/* TCH/F if used, PDCH otherwise */
-	GSM_PCHAN_UNKNOWN,
-	GSM_PCHAN_CCCH_SDCCH4_CBCH,
-	GSM_PCHAN_SDCCH8_SACCH8C_CBCH,
-	GSM_PCHAN_OSMO_DYN,
-	_GSM_PCHAN_MAX
-};
->>>>>>> 290d82d36de733d6cf0d7509f16f5a44d8446d2e
